@@ -411,6 +411,125 @@ func lockDiscipline(f *ast.File) (map[string]bool, bool) {
 	return res, ok
 }
 
+// ---- the order of atomic accesses in the functions of the lock-free index (topics/memlockfree/node.go) ----
+// In source order (arguments after the call they belong to), every call that touches shared state becomes a token:
+//   atomic.AddInt32(&x.f, k) -> "add f k"   atomic.LoadInt32(&x.f) -> "load f"   atomic.StoreInt32(&x.f, k) -> "store f k"
+//   x.children.M / x.subs.M / x.retained.M -> "children.M" ...   x.wgDeleted.M -> "wg.M"
+//   recv.onCleanUnsubscribe -> "callback"   recv.<other method of the provider> / plain function of the file -> "call name"
+// Locks and Hash() are left out (the mutex is the subject of lf_writers; Hash is the subscriber's own function).
+func fieldOfAddr(e ast.Expr) string {
+	if u, ok := e.(*ast.UnaryExpr); ok && u.Op == token.AND {
+		if se, ok := u.X.(*ast.SelectorExpr); ok {
+			return se.Sel.Name
+		}
+	}
+	return "?"
+}
+
+func litStr(e ast.Expr) string {
+	if v, ok := intLit(e); ok {
+		return fmt.Sprintf("%d", v)
+	}
+	if u, ok := e.(*ast.UnaryExpr); ok && u.Op == token.SUB {
+		if v, ok := intLit(u.X); ok {
+			return fmt.Sprintf("-%d", v)
+		}
+	}
+	return "?"
+}
+
+func accessShape(f *ast.File) map[string][]string {
+	local := map[string]bool{}
+	for _, d := range f.Decls {
+		if fd, ok := d.(*ast.FuncDecl); ok {
+			local[fd.Name.Name] = true
+		}
+	}
+	res := map[string][]string{}
+	for _, d := range f.Decls {
+		fd, ok := d.(*ast.FuncDecl)
+		if !ok || fd.Body == nil {
+			continue
+		}
+		recv := ""
+		if fd.Recv != nil && len(fd.Recv.List) == 1 && len(fd.Recv.List[0].Names) == 1 {
+			recv = fd.Recv.List[0].Names[0].Name
+		}
+		var toks []string
+		callTok := func(c *ast.CallExpr) string {
+			ch := selChain(c.Fun)
+			parts := strings.Split(ch, ".")
+			last := parts[len(parts)-1]
+			switch {
+			case ch == "atomic.AddInt32" && len(c.Args) == 2:
+				return "add " + fieldOfAddr(c.Args[0]) + " " + litStr(c.Args[1])
+			case ch == "atomic.LoadInt32" && len(c.Args) == 1:
+				return "load " + fieldOfAddr(c.Args[0])
+			case ch == "atomic.StoreInt32" && len(c.Args) == 2:
+				return "store " + fieldOfAddr(c.Args[0]) + " " + litStr(c.Args[1])
+			case strings.HasPrefix(ch, "atomic."):
+				return ch
+			case len(parts) >= 2 && (parts[len(parts)-2] == "children" || parts[len(parts)-2] == "subs" || parts[len(parts)-2] == "retained"):
+				return parts[len(parts)-2] + "." + last
+			case len(parts) >= 2 && parts[len(parts)-2] == "wgDeleted":
+				return "wg." + last
+			case recv != "" && ch == recv+".onCleanUnsubscribe":
+				return "callback"
+			case recv != "" && len(parts) == 2 && parts[0] == recv:
+				return "call " + last
+			case len(parts) == 1 && local[last] && last != "newNode":
+				return "call " + last
+			}
+			return ""
+		}
+		// a condition that reads shared state, with its operators: "(load subsCount == 0 && ...)"
+		var condStr func(e ast.Expr) (string, bool)
+		condStr = func(e ast.Expr) (string, bool) {
+			switch x := e.(type) {
+			case *ast.BinaryExpr:
+				a, sa := condStr(x.X)
+				b, sb := condStr(x.Y)
+				return "(" + a + " " + x.Op.String() + " " + b + ")", sa || sb
+			case *ast.UnaryExpr:
+				a, sa := condStr(x.X)
+				return x.Op.String() + a, sa
+			case *ast.ParenExpr:
+				return condStr(x.X)
+			case *ast.CallExpr:
+				if t := callTok(x); t != "" {
+					return t, true
+				}
+				return selChain(x.Fun) + "()", false
+			case *ast.TypeAssertExpr:
+				return condStr(x.X)
+			case *ast.SelectorExpr:
+				a, sa := condStr(x.X)
+				return a + "." + x.Sel.Name, sa
+			case *ast.BasicLit:
+				return x.Value, false
+			case *ast.Ident:
+				return x.Name, false
+			}
+			return "?", false
+		}
+		ast.Inspect(fd.Body, func(x ast.Node) bool {
+			switch n := x.(type) {
+			case *ast.IfStmt:
+				if cs, shared := condStr(n.Cond); shared {
+					toks = append(toks, "if "+cs)
+				}
+			case *ast.CallExpr:
+				if t := callTok(n); t != "" {
+					toks = append(toks, t)
+				}
+			}
+			return true
+		})
+		res[fd.Name.Name] = toks
+	}
+	return res
+}
+
 func main() {
 	repo := flag.String("repo", "/repo", "repository root")
 	out := flag.String("out", "", "output .v file")
@@ -503,6 +622,23 @@ func main() {
 	}
 	w("].\nDefinition lf_writers_found : bool := %v.\n", ldok)
 	w("Definition lf_writers_locked : bool := lf_writers_found && forallb snd lf_writers.\n")
+
+	// ---- order of atomic accesses in the protocol functions of the lock-free index
+	sh := accessShape(parse(filepath.Join(*repo, "topics/memlockfree/node.go")))
+	w("\nDefinition lf_shape : list (string * list string) := [\n")
+	shNames := []string{"leafInsertNode", "leafSearchNode", "subscriptionInsert", "subscriptionRemove", "nodesCleanup", "subscriptionRecurseSearch", "subscriptionSearch"}
+	for i, n := range shNames {
+		q := make([]string, len(sh[n]))
+		for j, t := range sh[n] {
+			q[j] = "\"" + t + "\""
+		}
+		sep := ";"
+		if i == len(shNames)-1 {
+			sep = ""
+		}
+		w("  (\"%s\", [%s])%s\n", n, strings.Join(q, "; "), sep)
+	}
+	w("].\n")
 
 	if *out == "" {
 		fmt.Print(sb.String())
